@@ -73,6 +73,13 @@ impl Send {
 
     pub fn reserve_local(&mut self) -> Result<StreamId, UserError> {
         let stream_id = self.ensure_next_stream_id()?;
+
+        // RFC 9113 6.8: once the peer has sent GOAWAY no new stream may be
+        // started; `max_stream_id` is the last identifier the peer accepts.
+        if stream_id > self.max_stream_id {
+            return Err(UserError::Rejected);
+        }
+
         self.next_stream_id = stream_id.next_id();
         Ok(stream_id)
     }
